@@ -2,6 +2,7 @@ import Infretis.Lemmas.Vel
 import Infretis.Lemmas.VelRoute
 import Infretis.Lemmas.VelProj
 import Infretis.Lemmas.VelFlow
+import Infretis.Lemmas.VelExtra
 import Mathlib.Tactic.NormNum
 import Mathlib.Algebra.Order.AbsoluteValue.Basic
 /-!
@@ -26,6 +27,18 @@ hold for all five engines with `codeVariant`.
 statements (`dek_consistent_all`, `kinNew_consistent_all`, `request_on_engine_stream_all`, which are proved from
 them by discharging the guard with `codeVariant`); they stay as the exact record of the guard under which the
 pre-fix code was right, next to their `_counterexample`s.  Nothing is missing for the current code.
+
+Audit follow-up (§12–§15, `Model/VelExtra.lean`): LAMMPS `get_atom_masses` (finding
+`C16:lammps:masses-section-not-sorted`, repaired in /repo by 76f2ebe; `asIs` = the record), TurtleMD with `dim < 3`
+(OPEN finding `C16:turtlemd:dim-lt-3:kinetic-energy-counts-unused-components`: `codeVariantDim = .asIs`, with the
+`_counterexample` and the repaired-variant theorem), numpy's shape decision and the missing-`rgen` branches in front
+of the core (`modifyVelocitiesS`: §§2–7 speak about the real `modify_velocities` on the domain "as many masses as
+atoms in the frame, `engine.rgen` set" — `modifyVelocitiesS_consistent`, `headlines_shape_guarded`), and the ASE form
+of "written velocity = scale·z" with the composed second-moment statement.
+Scope of the ASE statements (`modify_zero_momentum`, `ase_vel_eq`, …): frames WITHOUT constraints.  ase applies the
+constraints stored in the frame inside `set_momenta` (called by MaxwellBoltzmannDistribution and Stationary): with
+`FixAtoms` the fixed atoms are written with velocity 0 — they are not degrees of freedom — and the total momentum is
+not reset to 0.  The model has no constraint field; the tie books such frames as an observed class, not an alarm.
 
 Extension pass (§8–§11): settings routing through the moves (`Model/VelRoute.lean`), the degrees-of-freedom
 statement under the zero-momentum projection (`Lemmas/VelProj.lean`), the helpers' remaining branches, and the
@@ -531,7 +544,11 @@ example : ∃ sh, prepareShootingPoint .asIs .asIs aseWitnessSetup
 /-! ## 7. the only draw request is `normal` on the engine's own stream -/
 
 /-- **Request (GROMACS, CP2K, LAMMPS, TurtleMD).** One request: `normal`, loc 0, per-particle
-    scale² = (1/β)(1/mᵢ), shape (npart, dim), on the engine's `rgen`. -/
+    scale² = (1/β)(1/mᵢ), shape (npart, dim), on the engine's `rgen`.
+    Domain (audit follow-up, §14): `modifyVelocities` is the shape-consistent core — the real code asks for
+    `vel.shape[0]` particles, which is `(mass s).length` exactly when the frame has as many atoms as the engine has
+    masses.  Read for EVERY input ("npart = number of masses") the statement is false of the real code: see
+    `length_one_broadcast_counterexample`; the guarded end-to-end form is `headlines_shape_guarded`. -/
 theorem request_on_engine_stream (vk vr : Variant) (s : Setup) (src : Frame) (e : Option Rat)
     (zm : Option Bool) (sig : List Rat) (z : List (List Rat)) (hne : s.engine ≠ .ase) :
     (modifyVelocities vk vr s src e zm sig z).request =
@@ -1052,5 +1069,428 @@ theorem dumpFrameE_agrees_with_dumpFrame (e : Engine) (top : List Nat) (h : Heap
       cases e <;> simp_all [dumpFrameE, extractFrame, readFile_writeFile_self, readConf]
 
 end FileFlow
+
+/-! ## 12. LAMMPS: every atom is given the mass listed for ITS type (`get_atom_masses`)
+
+Model: `Infretis/Model/VelExtra.lean` (`getAtomMasses`, `selMass`, `assignLoop`, `sortById`).  The `Vel.Setup.massIn` of
+the LAMMPS engine IS the result of this function.  Finding `C16:lammps:masses-section-not-sorted` (independent audit):
+until commit 76f2ebe the rows of the `Masses` section were indexed by POSITION (`asIs` below, kept as the record);
+the code now looks the row up by its type id (`repaired`). -/
+section LammpsMasses
+open Infretis.VelExtra
+
+/-- **Finding `C16:lammps:masses-section-not-sorted`** (code before 76f2ebe): `Masses` lists type 2 (mass 16) before
+    type 1 (mass 1), atom 1 has type 1, atom 2 type 2 — the positional lookup gives atom 1 the mass 16 and atom 2
+    the mass 1; the code as it is now gives each atom the mass of its type. -/
+theorem lammps_masses_unsorted_asIs_counterexample :
+    let d : LammpsData := { nAtoms := 2, nTypes := 2, massRows := some [(2, 16), (1, 1)],
+                            atoms := some [[1, 1, 1, 0, 0, 0, 0], [2, 1, 2, 0, 1, 0, 0]] }
+    getAtomMasses .asIs .full d = .ok [16, 1]
+    ∧ getAtomMasses .repaired .full d = .ok [1, 16] := by
+  constructor <;> decide
+
+/-- **Every atom gets the mass listed for its type** (code as it is now).  Whenever `get_atom_masses` returns, the
+    result has one entry per announced atom, and the entry at position `p` — the atom with the `p`-th smallest id —
+    is the mass of the `Masses` row whose id is that atom's type, wherever that row stands in the section and
+    wherever the atom's row stands in the `Atoms` section. -/
+theorem lammps_atom_gets_mass_of_its_type (style : AtomStyle) (d : LammpsData) (c : Nat)
+    (rows : List (List Rat)) (mr : List (Rat × Rat)) (ms : List Rat)
+    (hc : typeCol style = some c) (hat : d.atoms = some rows) (hmr : d.massRows = some mr)
+    (hok : getAtomMasses .repaired style d = .ok ms) :
+    ms.length = d.nAtoms
+    ∧ ∀ (p : Nat) (row : List Rat) (t : Nat) (m : Rat), (sortById rows)[p]? = some row →
+        row[c]? = some (t : Rat) → 1 ≤ t → t ≤ d.nTypes → ((t : Rat), m) ∈ mr → ms[p]? = some m := by
+  unfold getAtomMasses at hok
+  simp only [hc, hat, hmr] at hok
+  split at hok
+  · cases hok
+  · split at hok
+    · cases hok
+    · split at hok
+      · cases hok
+      · rename_i hn0 hlen _
+        have hlen' : rows.length ≤ d.nAtoms := by omega
+        have hl : ((List.range d.nAtoms).map (fun p => ((sortById rows)[p]?).bind (fun r => r[c]?))).length
+            = (List.replicate d.nAtoms (0 : Rat)).length := by simp
+        refine ⟨?_, ?_⟩
+        · have := assignLoop_length _ _ _ _ _ _ hl hok
+          simpa using this
+        · intro p row t m hp hrow ht1 ht2 hmem
+          have hplt : p < d.nAtoms := by
+            have : p < (sortById rows).length := by
+              rcases Nat.lt_or_ge p (sortById rows).length with h1 | h1
+              · exact h1
+              · rw [List.getElem?_eq_none h1] at hp; cases hp
+            have hsl : (sortById rows).length = rows.length := sortById_length rows
+            omega
+          have hty : ((List.range d.nAtoms).map (fun p => ((sortById rows)[p]?).bind (fun r => r[c]?)))[p]?
+              = some (some (t : Rat)) := by
+            simp [hplt, hp, hrow]
+          have htin : t ∈ List.range' 1 d.nTypes := by
+            simp only [List.mem_range'_1]; omega
+          obtain ⟨m', hm'⟩ := assignLoop_ok_sel _ _ _ _ _ _ hok t htin
+          have := (assignLoop_spec _ _ _ _ _ _ hl hok p (some (t : Rat)) hty).1 t htin rfl m' hm'
+          rw [this, selMass_repaired_of_mem mr t m m' hm' hmem]
+
+example : ∃ ms, getAtomMasses .repaired .charge
+    ({ nAtoms := 3, nTypes := 2, massRows := some [(2, 16), (1, 1)],
+       atoms := some [[3, 1, 0, 0, 0, 0], [1, 2, 0, 0, 0, 0], [2, 1, 0, 0, 0, 0]] } : LammpsData) = .ok ms
+    ∧ ms = [16, 1, 1] :=
+  ⟨_, by decide, rfl⟩
+
+/-- **Any order of the `Masses` rows.** Permuting the rows of the section changes nothing — neither the masses nor
+    which error is raised. -/
+theorem lammps_masses_rows_perm (style : AtomStyle) (d : LammpsData) (mr mr' : List (Rat × Rat))
+    (h : mr.Perm mr') :
+    getAtomMasses .repaired style { d with massRows := some mr }
+      = getAtomMasses .repaired style { d with massRows := some mr' } := by
+  unfold getAtomMasses
+  simp only [assignLoop_perm h]
+
+/-- **Any order of the `Atoms` rows** (distinct atom ids): the rows are sorted by id first, so the result is the
+    same for every permutation of the section. -/
+theorem lammps_atoms_rows_perm (v : Variant) (style : AtomStyle) (d : LammpsData) (rows rows' : List (List Rat))
+    (h : rows.Perm rows') (hid : ∀ a ∈ rows, ∀ b ∈ rows, rowId a = rowId b → a = b) :
+    getAtomMasses v style { d with atoms := some rows } = getAtomMasses v style { d with atoms := some rows' } := by
+  unfold getAtomMasses
+  simp only [h.length_eq, h.any_eq, sortById_perm_eq h hid]
+
+example : List.Perm [[3, 1, 2, 0], [1, 1, 1, 0]] [[1, 1, 1, 0], [3, 1, 2, (0 : Rat)]]
+    ∧ List.Perm [((2 : Rat), (16 : Rat)), (1, 1)] [(1, 1), (2, 16)] :=
+  ⟨List.Perm.swap _ _ _, List.Perm.swap _ _ _⟩
+
+/-- the function returns only when every type `1 … n_atom_types` has exactly ONE row in the section (a type
+    without a row, or listed twice, is numpy's "shape mismatch" ValueError — also when no atom has that type) -/
+theorem lammps_masses_ok_requires_one_row_per_type (style : AtomStyle) (d : LammpsData) (mr : List (Rat × Rat))
+    (ms : List Rat) (hmr : d.massRows = some mr) (hok : getAtomMasses .repaired style d = .ok ms) :
+    ∀ t, 1 ≤ t → t ≤ d.nTypes →
+      ∃ m, (mr.filter (fun r => decide (r.1 = (t : Rat)))).map (·.2) = [m] := by
+  unfold getAtomMasses at hok
+  cases hc : typeCol style with
+  | none => simp [hc] at hok
+  | some c =>
+    simp only [hc, hmr] at hok
+    split at hok
+    · cases hok
+    · split at hok
+      · cases hok
+      · split at hok
+        · cases hok
+        · split at hok
+          · cases hok
+          · intro t ht1 ht2
+            have htin : t ∈ List.range' 1 d.nTypes := by
+              simp only [List.mem_range'_1]; omega
+            obtain ⟨m, hm⟩ := assignLoop_ok_sel _ _ _ _ _ _ hok t htin
+            unfold selMass at hm
+            simp only at hm
+            generalize (mr.filter (fun r => decide (r.1 = (t : Rat)))).map (·.2) = l at hm
+            match l, hm with
+            | [m0], _ => exact ⟨m0, rfl⟩
+
+/-- the error decisions in the code's order: unsupported atom_style first (NotImplementedError), then a missing
+    `atoms` / `atom types` header (ValueError), then a missing or one-row `Atoms` section and a missing `Masses`
+    section (IndexError) -/
+theorem get_atom_masses_error_rule (v : Variant) (d : LammpsData) (style : AtomStyle) (c : Nat)
+    (hc : typeCol style = some c) :
+    getAtomMasses v .other d = .error .notImplemented
+    ∧ ((d.nAtoms = 0 ∨ d.nTypes = 0) → getAtomMasses v style d = .error .value)
+    ∧ (d.nAtoms ≠ 0 → d.nTypes ≠ 0 → d.atoms = none → getAtomMasses v style d = .error .index)
+    ∧ (∀ row, d.nAtoms ≠ 0 → d.nTypes ≠ 0 → d.atoms = some [row] → getAtomMasses v style d = .error .index) := by
+  refine ⟨rfl, ?_, ?_, ?_⟩
+  · intro h
+    simp [getAtomMasses, hc, h]
+  · intro h1 h2 h3
+    simp [getAtomMasses, hc, h1, h2, h3]
+  · intro row h1 h2 h3
+    simp [getAtomMasses, hc, h1, h2, h3]
+
+/-- type 2 has no row (the section lists types 1 and 3) -/
+def lammpsMissingTypeWitness : LammpsData :=
+  { nAtoms := 2, nTypes := 2, massRows := some [(1, 1), (3, 16)], atoms := some [[1, 1, 1, 0], [2, 1, 2, 0]] }
+
+example : getAtomMasses .repaired .full lammpsMissingTypeWitness = .error .value := by decide
+
+end LammpsMasses
+
+/-! ## 13. TurtleMD with `dim < 3`: the kinetic energy counts components the system does not have
+
+OPEN finding `C16:turtlemd:dim-lt-3:kinetic-energy-counts-unused-components` (independent audit; not repaired: the
+repository's own test asserts non-zero unused components).  `modifyTurtleD .asIs` = the code as it is
+(`codeVariantDim`), `.repaired` = kinetic energies over the engine's first `dim` components. -/
+section TurtleDim
+open Infretis.VelExtra
+
+/-- the code as it is does not look at `dim`: it is `Vel.modifyVelocities` of the TurtleMD engine -/
+theorem modifyTurtleD_asIs_eq (vk vr : Variant) (dim : Nat) (s : Setup) (src : Frame) (e : Option Rat)
+    (zm : Option Bool) (sig : List Rat) (z : List (List Rat)) (ht : s.engine = .turtlemd) :
+    modifyTurtleD codeVariantDim dim s src zm sig z = modifyVelocities vk vr s src e zm sig z := by
+  simp [modifyTurtleD, codeVariantDim, modifyVelocities, ht, modifyNumpy]
+
+/-- **What the code as it is reports** (any `dim`): `kin_new` is the energy of the first `dim` written components
+    PLUS the energy of the components beyond `dim`; when the source frame was written by the engine's propagation
+    (zeros beyond `dim`) `kin_old` holds the first `dim` components only, so `dek` is too large by exactly the
+    energy of the unused components that were drawn. -/
+theorem turtlemd_asIs_dek_excess (dim : Nat) (s : Setup) (src : Frame) (zm : Option Bool) (sig : List Rat)
+    (z : List (List Rat)) (ht : s.engine = .turtlemd)
+    (hsrc : ∀ col ∈ src.vel.drop dim, ∀ x ∈ col, x = 0) :
+    let r := modifyTurtleD .asIs dim s src zm sig z
+    r.kinNew = kineticEnergy (mass s) (r.frame.vel.take dim) + kineticEnergy (mass s) (r.frame.vel.drop dim)
+    ∧ r.kinOld = some (kineticEnergy (mass s) (src.vel.take dim))
+    ∧ (kineticEnergy (mass s) (src.vel.take dim) ≠ 0 →
+        r.dek = Dek.val ((kineticEnergy (mass s) (r.frame.vel.take dim) - kineticEnergy (mass s) (src.vel.take dim))
+                          + kineticEnergy (mass s) (r.frame.vel.drop dim))) := by
+  intro r
+  have hold : kineticEnergy (mass s) src.vel = kineticEnergy (mass s) (src.vel.take dim) := by
+    rw [kineticEnergy_take_drop (mass s) src.vel dim, kineticEnergy_zero_cols _ _ hsrc, add_zero]
+  have hnew : r.kinNew = kineticEnergy (mass s) r.frame.vel := by
+    simp [r, modifyTurtleD, modifyNumpy, ht]
+  have hko : r.kinOld = some (kineticEnergy (mass s) src.vel) := by
+    simp [r, modifyTurtleD, modifyNumpy, ht]
+  have hdek : r.dek = dekZeroRule (kineticEnergy (mass s) src.vel) r.kinNew := by
+    simp [r, modifyTurtleD, modifyNumpy, ht]
+  refine ⟨?_, ?_, ?_⟩
+  · rw [hnew]; exact kineticEnergy_take_drop _ _ _
+  · rw [hko, hold]
+  · intro hne
+    rw [hdek, hold, dekZeroRule, if_neg hne, hnew, kineticEnergy_take_drop (mass s) r.frame.vel dim]
+    congr 1
+    ring
+
+/-- the same without any assumption on the frame: the propagation overwrites only the first `dim` velocity components
+    of the arrays it read, so frames of a path generated AFTER a regeneration keep that regeneration's unused
+    components; then `kin_old` contains them too and `dek` is off by the DIFFERENCE of the unused components' energies
+    (new draw minus the stale one) — noise of the order k_B·T per particle and unused component instead of a constant
+    excess, but never the change of the system's own degrees of freedom alone. -/
+theorem turtlemd_asIs_dek_excess_general (dim : Nat) (s : Setup) (src : Frame) (zm : Option Bool) (sig : List Rat)
+    (z : List (List Rat)) (ht : s.engine = .turtlemd) (hne : kineticEnergy (mass s) src.vel ≠ 0) :
+    let r := modifyTurtleD .asIs dim s src zm sig z
+    r.dek = Dek.val ((kineticEnergy (mass s) (r.frame.vel.take dim) - kineticEnergy (mass s) (src.vel.take dim))
+                      + (kineticEnergy (mass s) (r.frame.vel.drop dim) - kineticEnergy (mass s) (src.vel.drop dim))) := by
+  intro r
+  have hnew : r.kinNew = kineticEnergy (mass s) r.frame.vel := by
+    simp [r, modifyTurtleD, modifyNumpy, ht]
+  have hdek : r.dek = dekZeroRule (kineticEnergy (mass s) src.vel) r.kinNew := by
+    simp [r, modifyTurtleD, modifyNumpy, ht]
+  rw [hdek, dekZeroRule, if_neg hne, hnew, kineticEnergy_take_drop (mass s) r.frame.vel dim,
+    kineticEnergy_take_drop (mass s) src.vel dim]
+  congr 1
+  ring
+
+example : kineticEnergy (mass ⟨.turtlemd, 1, 1, [1], []⟩) [[1 / 2], [0], [0]] ≠ 0 := by
+  norm_num [kineticEnergy, kinCol, dot, mulCol, sumL, mass]
+
+/-- **Finding, concrete** (the shipped 1-D `double_well`: one particle, m = 1, `dim = 1`): the frame holds
+    v = (1/2, 0, 0), the draw gives (1, 1, 1): the one degree of freedom goes from 1/8 to 1/2 (change 3/8), the code
+    reports `kin_new = 3/2` and `dek = 11/8` — too large by 1, the energy of the two components the system does not
+    have; the repaired variant reports 1/2 and 3/8. -/
+theorem turtlemd_dek_counts_unused_components_counterexample :
+    let s : Setup := { engine := .turtlemd, temperature := 1, boltzmann := 1, massIn := [1] }
+    let src : Frame := { pos := [[-1], [0], [0]], vel := [[1 / 2], [0], [0]], box := none, ids := [1] }
+    let a := modifyTurtleD codeVariantDim 1 s src (some false) [1] [[1], [1], [1]]
+    let b := modifyTurtleD .repaired 1 s src (some false) [1] [[1], [1], [1]]
+    a.kinNew = 3 / 2 ∧ a.dek = Dek.val (11 / 8)
+    ∧ kineticEnergy [1] (a.frame.vel.take 1) = 1 / 2
+    ∧ a.dek ≠ Dek.val (kineticEnergy [1] (a.frame.vel.take 1) - kineticEnergy [1] (src.vel.take 1))
+    ∧ b.kinNew = 1 / 2 ∧ b.dek = Dek.val (3 / 8) ∧ b.frame = a.frame := by
+  refine ⟨?_, ?_, ?_, ?_, ?_, ?_, rfl⟩ <;>
+    norm_num [modifyTurtleD, codeVariantDim, modifyNumpy, kineticEnergy, kinCol, dot, mulCol, sumL, drawVel,
+      zeroMomentumFlag, mass, dekZeroRule]
+
+/-- **dek, repaired variant.** `kin_new` is the kinetic energy of the first `dim` written components, `dek` its
+    difference to that of the first `dim` components of the frame (`inf` when that is zero); what is written
+    (positions, velocities, box, identities, the draw request) is what the code writes today. -/
+theorem dek_consistent_turtlemd_dim_repaired (dim : Nat) (s : Setup) (src : Frame) (zm : Option Bool)
+    (sig : List Rat) (z : List (List Rat)) :
+    let r := modifyTurtleD .repaired dim s src zm sig z
+    r.kinNew = kineticEnergy (mass s) (r.frame.vel.take dim)
+    ∧ r.dek = (if kineticEnergy (mass s) (src.vel.take dim) = 0 then Dek.inf
+               else Dek.val (kineticEnergy (mass s) (r.frame.vel.take dim)
+                              - kineticEnergy (mass s) (src.vel.take dim)))
+    ∧ r.frame = (modifyTurtleD .asIs dim s src zm sig z).frame
+    ∧ r.request = (modifyTurtleD .asIs dim s src zm sig z).request := by
+  simp [modifyTurtleD, dekZeroRule]
+
+/-- for a 3-D system (`dim` ≥ the number of components in the file) the two variants coincide: nothing changes for
+    the systems the rest of this file is about -/
+theorem modifyTurtleD_repaired_eq_asIs_of_full_dim (dim : Nat) (s : Setup) (src : Frame) (zm : Option Bool)
+    (sig : List Rat) (z : List (List Rat)) (ht : s.engine = .turtlemd)
+    (hd : src.vel.length ≤ dim) (hz : z.length ≤ dim) :
+    modifyTurtleD .repaired dim s src zm sig z = modifyTurtleD .asIs dim s src zm sig z := by
+  have h1 : src.vel.take dim = src.vel := List.take_of_length_le hd
+  have hlen : (modifyNumpy s src none zm sig z).frame.vel.length = z.length := by
+    simp only [modifyNumpy, ht, drawVel]
+    split <;> simp [resetMomentum]
+  have h2 : (modifyNumpy s src none zm sig z).frame.vel.take dim = (modifyNumpy s src none zm sig z).frame.vel :=
+    List.take_of_length_le (by rw [hlen]; exact hz)
+  simp only [modifyTurtleD, h1, h2]
+  simp [modifyNumpy, ht]
+
+example : (⟨[[0]], [[1], [0], [0]], none, [1]⟩ : Frame).vel.length ≤ 3 := by decide
+
+end TurtleDim
+
+/-! ## 14. shapes and the generator: when the shape-consistent core (§§2–7) applies
+
+`modifyVelocitiesS` (`Model/VelExtra.lean`) is the function the driver runs: numpy's broadcast decision between the
+engine's mass vector (k, 1) and the frame's (n, 3) arrays, and the presence of `engine.rgen`, come first.
+Every statement of §§2–7 about `modifyVelocities` is a statement about the real `modify_velocities` exactly on the
+domain `k = n` (or ASE, whose masses come from the frame) with a generator — `modifyVelocitiesS_consistent`.
+The OLD reading of `request_on_engine_stream` ("`npart` = number of masses" for every input) is false of the real
+code when k ≠ n: `length_one_broadcast_counterexample`. -/
+section Shapes
+open Infretis.VelExtra
+
+/-- **Domain of the core.** With a generator and matching atom counts (or ASE) the end-to-end function is the core. -/
+theorem modifyVelocitiesS_consistent (vk vr : Variant) (s : Setup) (src : Frame) (e : Option Rat)
+    (zm : Option Bool) (sig : List Rat) (z : List (List Rat))
+    (hshape : s.engine = .ase ∨ (mass s).length = frameRows src) :
+    modifyVelocitiesS vk vr true s src e zm sig z = .ok (modifyVelocities vk vr s src e zm sig z) := by
+  rcases hshape with h | h
+  · simp [modifyVelocitiesS, modifyVelocities, h]
+  · cases hs : s.engine <;> simp [modifyVelocitiesS, modifyVelocities, hs, h]
+
+/-- **numpy refuses.** k ≠ n and k ≠ 1 (not ASE): `modify_velocities` raises ValueError and writes nothing. -/
+theorem modifyVelocitiesS_shape_error (vk vr : Variant) (s : Setup) (src : Frame) (e : Option Rat)
+    (zm : Option Bool) (sig : List Rat) (z : List (List Rat))
+    (hne : s.engine ≠ .ase) (h1 : (mass s).length ≠ frameRows src) (h2 : (mass s).length ≠ 1) :
+    modifyVelocitiesS vk vr true s src e zm sig z = .error .shape := by
+  cases hs : s.engine <;> simp_all [modifyVelocitiesS]
+
+/-- **The headline statements, end to end, with the shape guard.** Whenever the real call returns on matching
+    shapes: the request asks for as many particles as the FRAME has, on the engine's stream; `kin_new` is the energy
+    of what was written; positions and identities are the frame's. -/
+theorem headlines_shape_guarded (s : Setup) (src : Frame) (e : Option Rat) (zm : Option Bool) (sig : List Rat)
+    (z : List (List Rat)) (r : Result)
+    (hshape : s.engine = .ase ∨ (mass s).length = frameRows src)
+    (hok : modifyVelocitiesS codeVariant codeVariant true s src e zm sig z = .ok r) :
+    r = modifyVelocities codeVariant codeVariant s src e zm sig z
+    ∧ r.request.stream = .engineRgen
+    ∧ (s.engine ≠ .ase → r.request.npart = frameRows src)
+    ∧ r.kinNew = kineticEnergy (mass s) r.frame.vel
+    ∧ r.frame.pos = src.pos ∧ r.frame.ids = src.ids := by
+  rw [modifyVelocitiesS_consistent _ _ s src e zm sig z hshape] at hok
+  cases hok
+  refine ⟨rfl, (request_on_engine_stream_all _ s src e zm sig z).1, ?_, kinNew_consistent_all _ s src e zm sig z,
+    (positions_box_ids_preserved _ _ s src e zm sig z).1, (positions_box_ids_preserved _ _ s src e zm sig z).2.1⟩
+  intro hne
+  rw [request_on_engine_stream _ _ s src e zm sig z hne]
+  rcases hshape with h | h
+  · exact absurd h hne
+  · exact h
+
+example : (mass ⟨.gromacs, 300, 1, [2, 16], []⟩).length
+    = frameRows ⟨[[0, 1], [0, 0], [0, 0]], [[1, 0], [0, 0], [0, 0]], some [9, 9, 9], [1, 2]⟩ := by decide
+
+/-- **The length-1 broadcast** (GROMACS `masses=[2.0]` with a 2-atom frame, zero_momentum on; numpy semantics, no
+    error): the request asks for 2 particles (the frame's count, not the mass list's), the call returns, and the
+    "momentum reset" `vel -= Σ(m v)/m` leaves total momentum `(1 − n)·m·Σv ≠ 0`: draws (1, 0) and (0, 2) →
+    velocities (0, −1), momentum −2 in x. -/
+theorem length_one_broadcast_counterexample :
+    let s : Setup := { engine := .gromacs, temperature := 300, boltzmann := 1, massIn := [2] }
+    let src : Frame := { pos := [[0, 1], [0, 0], [0, 0]], vel := [[1, 0], [0, 0], [0, 0]], box := some [9, 9, 9],
+                         ids := [1, 2] }
+    ∃ r, modifyVelocitiesS codeVariant codeVariant true s src none (some true) [1] [[1, 0], [0, 2], [0, 0]] = .ok r
+      ∧ r.request.npart = 2 ∧ (mass s).length = 1
+      ∧ r.frame.vel = [[0, -1], [-2, 0], [0, 0]]
+      ∧ momentum [2, 2] r.frame.vel = [-2, -4, 0] := by
+  refine ⟨_, rfl, rfl, rfl, ?_, ?_⟩ <;>
+    norm_num [modifyNumpyB, frameRows, mass, drawVel, mulCol, zeroMomentumFlag, dot, sumL, momentum, List.replicate,
+      List.flatten]
+
+/-- **Without `engine.rgen`.** GROMACS, CP2K, LAMMPS, TurtleMD raise ValueError and make no request; ASE returns —
+    its draw goes to numpy's global state (`rng=None`), whatever else holds. -/
+theorem no_rgen_behaviour (vk vr : Variant) (s : Setup) (src : Frame) (e : Option Rat) (zm : Option Bool)
+    (sig : List Rat) (z : List (List Rat)) :
+    (s.engine ≠ .ase → (mass s).length = frameRows src →
+        modifyVelocitiesS vk vr false s src e zm sig z = .error .noRgen)
+    ∧ (s.engine = .ase → ∃ r, modifyVelocitiesS vk vr false s src e zm sig z = .ok r
+        ∧ r.request.stream = .numpyGlobal ∧ r.frame = (modifyVelocities vk vr s src e zm sig z).frame) := by
+  constructor
+  · intro hne h
+    cases hs : s.engine <;> simp_all [modifyVelocitiesS]
+  · intro ha
+    refine ⟨{ (modifyAse vk vr s src zm sig z) with
+              request := { (modifyAse vk vr s src zm sig z).request with stream := .numpyGlobal } }, ?_, rfl, ?_⟩
+    · simp [modifyVelocitiesS, ha]
+    · simp [modifyVelocities, ha]
+
+end Shapes
+
+/-! ## 15. the written velocities and their second moment, ASE included -/
+section Written
+open Infretis.VelExtra
+
+/-- **ASE: written velocity = (sigP·z)/m** when zero momentum is off (`sigP` = `sqrt(m·units.kB·T)`). -/
+theorem ase_vel_eq (vk vr : Variant) (s : Setup) (src : Frame) (e : Option Rat) (zm : Option Bool)
+    (sigP : List Rat) (z : List (List Rat)) (ha : s.engine = .ase) (hz : zeroMomentumFlag .ase zm = false) :
+    (modifyVelocities vk vr s src e zm sigP z).frame.vel = (drawVel sigP z).map (fun col => divCol col s.massIn) := by
+  simp [modifyVelocities, modifyAse, ha, hz]
+
+example : zeroMomentumFlag .ase (some false) = false := by decide
+
+/-- **All five engines: the written velocities without momentum reset.** -/
+theorem vel_eq_sigma_z_all (vk vr : Variant) (s : Setup) (src : Frame) (e : Option Rat) (zm : Option Bool)
+    (sig : List Rat) (z : List (List Rat)) (hz : zeroMomentumFlag s.engine zm = false) :
+    (modifyVelocities vk vr s src e zm sig z).frame.vel =
+      if s.engine = .ase then (drawVel sig z).map (fun col => divCol col s.massIn)
+      else if s.engine = .lammps then (drawVel sig z).map (fun col => col.map (fun v => v / lammpsScale))
+      else drawVel sig z := by
+  by_cases ha : s.engine = .ase
+  · rw [if_pos ha]
+    exact ase_vel_eq vk vr s src e zm sig z ha (by rw [ha] at hz; exact hz)
+  · rw [if_neg ha]
+    exact vel_eq_sigma_z s src e sig z hz ha
+
+/-- **Composition (GROMACS, CP2K, TurtleMD): written v²·m = k_B·T·z², entry by entry.** If the scales numpy was
+    handed square to the requested `σᵢ² = (1/β)(1/mᵢ)` (that is what `sqrt` means), every written column `w = σ·z`
+    satisfies `wᵢ²·mᵢ = (kb·T)·zᵢ²`: with `⟨z²⟩ = 1` that is `⟨m v²⟩ = k_B·T` per component. -/
+theorem written_v_sq_mass_eq_kT_z_sq (vk vr : Variant) (s : Setup) (src : Frame) (e : Option Rat)
+    (zm : Option Bool) (sig : List Rat) (z : List (List Rat))
+    (hz : zeroMomentumFlag s.engine zm = false) (hne : s.engine ≠ .ase) (hnl : s.engine ≠ .lammps)
+    (hT : s.temperature * kbBeta s ≠ 0) (hm : ∀ m ∈ mass s, m ≠ 0)
+    (hsig : mulCol sig sig = sigmaSq (beta s) (mass s))
+    (hlen : ∀ c ∈ z, c.length = (mass s).length) :
+    (modifyVelocities vk vr s src e zm sig z).frame.vel.map (fun w => mulCol (mulCol w w) (mass s))
+      = z.map (fun c => (mulCol c c).map (fun x => kbBeta s * s.temperature * x)) := by
+  rw [vel_eq_sigma_z s src e sig z hz hne, if_neg hnl]
+  simp only [drawVel, List.map_map]
+  apply List.map_congr_left
+  intro c hc
+  simp only [Function.comp]
+  rw [sq_mass_col, hsig, mulCol_sigmaSq _ _ hm, one_div_beta s hT]
+  have hcc : (mulCol c c).length = (mass s).length := by
+    rw [mulCol_length c c rfl, hlen c hc]
+  exact mulCol_const_left _ _ _ hcc
+
+example : mulCol [1 / 2, 1 / 4] [1 / 2, 1 / 4] = sigmaSq 4 [1, 4] := by
+  norm_num [mulCol, sigmaSq]
+
+/-- **Composition, ASE:** the written velocity `w = (sigP·z)/m` with `sigP² = m·units.kB·T` has `w²·m = units.kB·T·z²`. -/
+theorem ase_written_v_sq_mass (T m sP zz : Rat) (hm : m ≠ 0) (hs : sP * sP = m * (kbAseUnits * T)) :
+    (sP * zz / m) * (sP * zz / m) * m = kbAseUnits * T * (zz * zz) := by
+  have : (sP * zz / m) * (sP * zz / m) * m = (sP * sP) * (zz * zz) / m := by field_simp
+  rw [this, hs]
+  field_simp
+
+example : ((2 : Rat) * 3 / 4) * (2 * 3 / 4) * 4 = 1 * (3 * 3) ∧ (2 : Rat) * 2 = 4 * 1 := by norm_num
+
+/-- **Every regeneration of a move, all five engines:** with zero momentum not requested by the configured
+    `tis_set`, what is written is the untouched draw in the engine's form (ASE: `(sigP·z)/m`; LAMMPS: `σ·z/scale`). -/
+theorem move_unprojected_all (vk vr : Variant) (s : Setup) (mv : Infretis.VelRoute.Move)
+    (ts : Infretis.VelRoute.Settings) (hasSeg : Bool) (inputs : List Infretis.VelRoute.CallInput) (rs : List Result)
+    (h : Infretis.VelRoute.moveRegenerations vk vr s mv ts hasSeg inputs = .ok rs)
+    (hflag : Infretis.VelRoute.effectiveZeroMomentum s.engine ts = false) :
+    ∀ r ∈ rs, ∃ i ∈ inputs, r.frame.vel =
+      if s.engine = .ase then (drawVel i.sig i.z).map (fun col => divCol col s.massIn)
+      else if s.engine = .lammps then (drawVel i.sig i.z).map (fun col => col.map (fun v => v / lammpsScale))
+      else drawVel i.sig i.z := by
+  obtain ⟨rt, _, hrs⟩ := move_regenerations_use_configured vk vr s mv ts hasSeg inputs rs h
+  intro r hr
+  rw [hrs, List.mem_map] at hr
+  obtain ⟨i, hi, rfl⟩ := hr
+  exact ⟨i, List.mem_of_mem_take hi, vel_eq_sigma_z_all vk vr s i.src i.sysEkin _ i.sig i.z hflag⟩
+
+end Written
 
 end Infretis.C16
